@@ -28,6 +28,7 @@ type SSym struct {
 	RoundTrip string    `json:"roundTrip,omitempty"` // authentication data of this scheme's shape
 	From      *NodeSpec `json:"from,omitempty"`
 	To        *NodeSpec `json:"to,omitempty"`
+	PP        *NodeSpec `json:"pp,omitempty"`       // a delegation node on the envelope (valid on any envelope; the remote node of a session is still its from)
 	DoTLS     bool      `json:"doTls,omitempty"`    // after sending, run the server side of a TLS handshake
 	NoReason  bool      `json:"noReason,omitempty"` // a failed session without its reason member
 }
@@ -98,6 +99,9 @@ func (s *SSym) env() M {
 	}
 	if s.To != nil {
 		m["to"] = NodeText(s.To.Node())
+	}
+	if s.PP != nil {
+		m["pp"] = NodeText(s.PP.Node())
 	}
 	switch s.Kind {
 	case "session":
@@ -475,6 +479,9 @@ func cliAlphabet() []SSym {
 		a = append(a, s)
 	}
 	a = append(a, ses("established", "A")) // no to
+	viaGateway := ses("established", "A")  // sent on behalf of the server by another node
+	viaGateway.To, viaGateway.PP = cliA, &NodeSpec{Name: "gateway", Domain: "edge.example", Instance: "lb7"}
+	a = append(a, viaGateway)
 	a = append(a, ses("new", "A"), ses("finishing", "A"), ses("finished", "A"), ses("failed", "A"), ses("failed", "B"))
 	bare := ses("failed", "A")
 	bare.NoReason = true
